@@ -62,7 +62,7 @@ def run(ctx):
         loaded = False
         for root in ("Post", "Author", "Org"):
             # Org.authors and Post.authors share their name: Org runs after Post resolved it
-            plans = [(1, None), (4, 500 if root == "Post" else 150)] if quick else [(2, None), (5, 4000 if root == "Post" else 1500)]
+            plans = [(1, None), (4, 300 if root == "Post" else 100)] if quick else [(2, None), (5, 4000 if root == "Post" else 1500)]
             if root == "Org":
                 plans = [(1, None)] if quick else [(2, None)]
             seen = set()
